@@ -10,7 +10,7 @@ from vf.sim.target import desc_sense, fixed_sense
 ID = "C07"
 LEVEL = "model_checking"
 TECHNIQUE = "exhaustive enumeration of (status byte x sense x transport x call path x raw flag) at depth 1 and of all status/command histories up to a depth bound on real device objects over stand-in bindings, judged by a status->outcome reference model"
-RULE = ("depth 1: all 256 status bytes x {SG_IO, iSCSI} x {device.execute, SCSI.execute} x raw-sense {off,on} x 5 sense buffers, and all 256 "
+RULE = ("depth 1: all 256 status bytes x {SG_IO, iSCSI} x {device.execute, SCSI.execute} x raw-sense {off,on} x (READ(10) x 5 sense buffers + 7 other commands incl. ATA PASS-THROUGH with/without CK_COND), and all 256 "
         "status bytes x both transports x each of the 38 facade methods on every command set offering it x 2 sense buffers; histories: all "
         "sequences up to length L (3 quick, 4 thorough) over {GOOD, CHECK CONDITION, BUSY, RESERVATION CONFLICT, 7Fh} x {TEST UNIT READY, "
         "READ(10), INQUIRY} on one device per transport, every step judged and every GOOD step's result compared with the target. "
@@ -104,6 +104,14 @@ def new_cmd(kind, dev, blocksize=512):
     from pyscsi.pyscsi.scsi_cdb_inquiry import Inquiry
     from pyscsi.pyscsi.scsi_cdb_read10 import Read10
     from pyscsi.pyscsi.scsi_cdb_testunitready import TestUnitReady
+    if kind.startswith("ata"):
+        from pyscsi.pyscsi.scsi_cdb_atapassthrough12 import ATAPassThrough12
+        from pyscsi.pyscsi.scsi_cdb_atapassthrough16 import ATAPassThrough16
+        cls, key = (ATAPassThrough16, "ATA_PASS_THROUGH_16") if "16" in kind else (ATAPassThrough12, "ATA_PASS_THROUGH_12")
+        return cls(getattr(dev.opcodes, key), 4, 2, 1, 1, 0, 0, 0, 1, 0, 0xEC, ck_cond=1 if kind.endswith("ck") else 0)
+    if kind == "write10":
+        from pyscsi.pyscsi.scsi_cdb_write10 import Write10
+        return Write10(dev.opcodes.WRITE_10, blocksize, 1, 1, bytearray(blocksize))
     if kind == "tur":
         return TestUnitReady(dev.opcodes.TEST_UNIT_READY)
     if kind == "read10":
@@ -115,11 +123,12 @@ def run_case(case, obs=None):
     install.ensure()
     mode = case[0]
     if mode == "direct":
-        _, tr, path, status, sensekind, raw = case
+        _, tr, path, status, sensekind, raw = case[:6]
+        ckind = case[6] if len(case) > 6 else "read10"
         rig = harness.Rig(tr, 0x00)
         try:
             s = rig.facade()
-            cmd = new_cmd("read10", rig.dev)
+            cmd = new_cmd(ckind, rig.dev)
             rig.target.script.append((status, SENSES[sensekind][0]))
             n0 = len(rig.target.log)
             if path == "dev":
@@ -243,6 +252,13 @@ def run_partition(part, tier, seed):
                 for sk in SENSES:
                     for raw in (False, True):
                         do(["direct", tr, path, status, sk, raw], status != 0)
+                        acc.traces += 1
+                        acc.transitions += 1
+                # the same through other commands (the transport must not treat any CDB specially): ATA PASS-THROUGH with and
+                # without CK_COND, WRITE, TEST UNIT READY, INQUIRY
+                for ckind in ("ata16ck", "ata12ck", "ata16", "ata12", "write10", "tur", "inquiry"):
+                    for raw in (False, True):
+                        do(["direct", tr, path, status, "fixed18", raw, ckind], status != 0)
                         acc.traces += 1
                         acc.transitions += 1
     elif part[0] == "facade":
